@@ -2,63 +2,442 @@ import PGM.Model.RegionGraph
 import PGM.Model.FactorGraph
 import PGM.Proofs.RealScalar
 import PGM.Proofs.Factor
+import PGM.Proofs.OracleNorm
+import PGM.Proofs.OracleFold
+import PGM.Proofs.OracleGraph
+import PGM.Proofs.OraclePos
+import PGM.Proofs.OracleLbp
 /-!
 # Approximate oracles: every returned table is normalised; disjoint families are solved exactly
 (statements for C16 and C18), real-number instance `realScalar`
+
+`ValidTable` is defined in `OracleNorm.lean`, `Disjoint` in `OracleGraph.lean` (same namespace
+`PGM.Oracle`, same definitions as in the original statement file).
 -/
 namespace PGM.Oracle
 open PGM PGM.JT
 
-/-- a table of mass `T`: strictly positive entries summing to `T` -/
-def ValidTable (T : ℝ) (f : Factor ℝ) : Prop :=
-  (∀ v ∈ f.datavector, 0 < v) ∧ f.datavector.sum = T
+/-! ## the common last step -/
 
 /-- **the common last step** `belief += log(total) − logsumexp(belief); exp` produces a valid table
 for every finite belief table and every total > 0 -/
 theorem normalise_valid (T : ℝ) (b : Factor ℝ) (hT : 0 < T) (hne : b.vals.data.size ≠ 0) :
     ValidTable T (RG.normalise T b) ∧ (RG.normalise T b).dom = b.dom ∧
-    (RG.normalise T b).vals.data.size = b.vals.data.size := by
-  sorry
+    (RG.normalise T b).vals.data.size = b.vals.data.size :=
+  ⟨normalise_valid' T b hT hne, normalise_dom T b, normalise_size T b⟩
 
 /-- each entry is `T · softmax(b)` -/
 theorem normalise_entry (T : ℝ) (b : Factor ℝ) (hT : 0 < T) (i : Nat) (hi : i < b.vals.data.size) :
     (RG.normalise T b).vals.data[i]? =
       some (T * Real.exp (b.vals.data[i]'hi) / ((b.vals.data.toList.map Real.exp).sum)) := by
-  sorry
+  have hS : 0 < expSum b := expSum_pos b (by omega)
+  rw [normalise_data]
+  simp only [Array.getElem?_map, Array.getElem?_eq_getElem hi, Option.map_some]
+  rw [cell_eq T (expSum b) _ hT hS]
+  rfl
+
+/-- a table that is `normalise T b` for some `b` is valid as soon as it is non-empty -/
+theorem valid_of_normalised (T : ℝ) (hT : 0 < T) (f : Factor ℝ) (h : ∃ b : Factor ℝ, f = RG.normalise T b)
+    (hsz : f.vals.data.size ≠ 0) : ValidTable T f := by
+  obtain ⟨b, rfl⟩ := h
+  rw [normalise_size] at hsz
+  exact normalise_valid' T b hT hsz
+
+/-! ## every returned table is `normalise total (some belief)` -/
+
+/-- the belief of region `r` in `generalized_belief_propagation` after the sweeps -/
+noncomputable def gbpBelief (dom : Dom) (g : RG.Graph) (pots : CliqueVec ℝ) (iters : Nat) (msgs : RG.Msgs ℝ)
+    (r : RG.Region) : Factor ℝ :=
+  RG.addSum (pots.get r)
+    (RG.pySum ((RG.look g.B r).map (RG.iterate (RG.gbpSweep g (RG.potOf dom g pots)) iters msgs).get))
+
+theorem gbp_eq_fill (dom : Dom) (g : RG.Graph) (pots : CliqueVec ℝ) (T : ℝ) (iters : Nat) (msgs : RG.Msgs ℝ) :
+    (RG.gbp dom g pots T iters msgs).1 =
+      fill (fun r => RG.normalise T (gbpBelief dom g pots iters msgs r)) g.cliques [] := rfl
 
 /-- **region-graph propagation returns normalised tables**: for every region graph (whatever its
-structure), every potential vector, every total > 0, every sweep count and every state of the
+structure), every potential vector, every total, every sweep count and every state of the
 persisted messages, each returned table is `normalise total (some belief)` -/
 theorem gbp_tables_normalised (dom : Dom) (g : RG.Graph) (pots : CliqueVec ℝ) (T : ℝ) (iters : Nat)
     (msgs : RG.Msgs ℝ) (p : Clique × Factor ℝ) (hp : p ∈ (RG.gbp dom g pots T iters msgs).1) :
     ∃ b : Factor ℝ, p.2 = RG.normalise T b := by
-  sorry
+  rw [gbp_eq_fill] at hp
+  rcases mem_fill _ _ _ p hp with h | h
+  · simp at h
+  · exact ⟨_, h.2⟩
+
+/-- the returned dictionary has one entry per clique of the graph, in `g.cliques` order -/
+theorem gbp_keys' (dom : Dom) (g : RG.Graph) (pots : CliqueVec ℝ) (T : ℝ) (iters : Nat) (msgs : RG.Msgs ℝ) :
+    (RG.gbp dom g pots T iters msgs).1.map Prod.fst = RG.dedup g.cliques := by
+  rw [gbp_eq_fill]; exact keys_fill_nil _ _
+
+theorem gbp_keys (dom : Dom) (g : RG.Graph) (pots : CliqueVec ℝ) (T : ℝ) (iters : Nat) (msgs : RG.Msgs ℝ)
+    (hnd : g.cliques.Nodup) :
+    (RG.gbp dom g pots T iters msgs).1.map Prod.fst = g.cliques := by
+  rw [gbp_keys', dedup_of_nodup _ hnd]
+
+/-- the table of a clique of the graph is the normalised belief of that clique -/
+theorem gbp_get (dom : Dom) (g : RG.Graph) (pots : CliqueVec ℝ) (T : ℝ) (iters : Nat) (msgs : RG.Msgs ℝ)
+    (c : Clique) (hc : c ∈ g.cliques) :
+    (RG.gbp dom g pots T iters msgs).1.get c = RG.normalise T (gbpBelief dom g pots iters msgs c) := by
+  rw [gbp_eq_fill]; exact get_fill _ _ c hc
+
+/-- … hence a valid table of mass `T` whenever it is non-empty -/
+theorem gbp_tables_valid (dom : Dom) (g : RG.Graph) (pots : CliqueVec ℝ) (T : ℝ) (iters : Nat)
+    (msgs : RG.Msgs ℝ) (hT : 0 < T) (p : Clique × Factor ℝ) (hp : p ∈ (RG.gbp dom g pots T iters msgs).1)
+    (hsz : p.2.vals.data.size ≠ 0) : ValidTable T p.2 :=
+  valid_of_normalised T hT p.2 (gbp_tables_normalised dom g pots T iters msgs p hp) hsz
+
+/-! ### Hazan–Peng–Shashua -/
+
+theorem hpsSweep_snd (g : RG.Graph) (pot : RG.Region → Factor ℝ) (c0 : RG.Region → ℝ) (T rho : ℝ)
+    (msgs : RG.Msgs ℝ) :
+    ∃ F : RG.Region → Factor ℝ, (RG.hpsSweep g pot c0 T rho msgs).2 = fill (fun r => RG.normalise T (F r)) g.regions [] :=
+  ⟨_, rfl⟩
+
+/-- whatever holds of the initial `mu` and of the result of every sweep holds of the returned `mu` -/
+theorem hpsLoop_mu (g : RG.Graph) (pot : RG.Region → Factor ℝ) (c0 : RG.Region → ℝ) (T rho conv : ℝ)
+    (P : CliqueVec ℝ → Prop) (hs : ∀ msgs, P (RG.hpsSweep g pot c0 T rho msgs).2) :
+    ∀ (n done : Nat) (msgs : RG.Msgs ℝ) (mu : CliqueVec ℝ), P mu →
+      P (RG.hpsLoop g pot c0 T rho conv n done msgs mu).1 := by
+  intro n
+  induction n with
+  | zero => intro done msgs mu hmu; exact hmu
+  | succ n ih =>
+    intro done msgs mu _
+    have h := hs msgs
+    rw [RG.hpsLoop]
+    generalize RG.hpsSweep g pot c0 T rho msgs = q at h ⊢
+    obtain ⟨m, u⟩ := q
+    simp only
+    split
+    · exact h
+    · exact ih _ _ _ h
+
+/-- with at least one sweep the initial `mu` is irrelevant -/
+theorem hpsLoop_mu_succ (g : RG.Graph) (pot : RG.Region → Factor ℝ) (c0 : RG.Region → ℝ) (T rho conv : ℝ)
+    (P : CliqueVec ℝ → Prop) (hs : ∀ msgs, P (RG.hpsSweep g pot c0 T rho msgs).2)
+    (n done : Nat) (msgs : RG.Msgs ℝ) (mu : CliqueVec ℝ) :
+    P (RG.hpsLoop g pot c0 T rho conv (n + 1) done msgs mu).1 := by
+  have h := hs msgs
+  rw [RG.hpsLoop]
+  generalize RG.hpsSweep g pot c0 T rho msgs = q at h ⊢
+  obtain ⟨m, u⟩ := q
+  simp only
+  split
+  · exact h
+  · exact hpsLoop_mu g pot c0 T rho conv P hs _ _ _ _ h
 
 theorem hps_tables_normalised (dom : Dom) (g : RG.Graph) (counting : RG.Region → ℝ) (pots : CliqueVec ℝ)
     (T : ℝ) (iters : Nat) (rho conv : ℝ) (msgs : RG.Msgs ℝ) (p : Clique × Factor ℝ)
     (hp : p ∈ (RG.hps dom g counting pots T iters rho conv msgs).1) :
     ∃ b : Factor ℝ, p.2 = RG.normalise T b := by
-  sorry
+  have key := hpsLoop_mu g (RG.potOf dom g pots) counting T rho conv
+    (fun mu => ∀ p ∈ mu, ∃ b : Factor ℝ, p.2 = RG.normalise T b) (by
+      intro msgs p hp
+      obtain ⟨F, hF⟩ := hpsSweep_snd g (RG.potOf dom g pots) counting T rho msgs
+      rw [hF] at hp
+      rcases mem_fill _ _ _ p hp with h | h
+      · simp at h
+      · exact ⟨_, h.2⟩) iters 0 msgs [] (by intro p hp; simp at hp)
+  exact key p hp
+
+/-- with `iters > 0` (the Python raises otherwise) there is one table per region, in `g.regions` order -/
+theorem hps_keys' (dom : Dom) (g : RG.Graph) (counting : RG.Region → ℝ) (pots : CliqueVec ℝ)
+    (T : ℝ) (iters : Nat) (rho conv : ℝ) (msgs : RG.Msgs ℝ) (hi : 0 < iters) :
+    (RG.hps dom g counting pots T iters rho conv msgs).1.map Prod.fst = RG.dedup g.regions := by
+  obtain ⟨n, rfl⟩ : ∃ n, iters = n + 1 := ⟨iters - 1, by omega⟩
+  apply hpsLoop_mu_succ g (RG.potOf dom g pots) counting T rho conv
+    (fun mu => mu.map Prod.fst = RG.dedup g.regions)
+  intro msgs
+  obtain ⟨F, hF⟩ := hpsSweep_snd g (RG.potOf dom g pots) counting T rho msgs
+  rw [hF]; exact keys_fill_nil _ _
+
+theorem hps_keys (dom : Dom) (g : RG.Graph) (counting : RG.Region → ℝ) (pots : CliqueVec ℝ)
+    (T : ℝ) (iters : Nat) (rho conv : ℝ) (msgs : RG.Msgs ℝ) (hi : 0 < iters) (hnd : g.regions.Nodup) :
+    (RG.hps dom g counting pots T iters rho conv msgs).1.map Prod.fst = g.regions := by
+  rw [hps_keys' dom g counting pots T iters rho conv msgs hi, dedup_of_nodup _ hnd]
+
+/-- without a sweep nothing is returned (the Python raises `UnboundLocalError`) -/
+theorem hps_zero_iters (dom : Dom) (g : RG.Graph) (counting : RG.Region → ℝ) (pots : CliqueVec ℝ)
+    (T : ℝ) (rho conv : ℝ) (msgs : RG.Msgs ℝ) :
+    (RG.hps dom g counting pots T 0 rho conv msgs).1 = [] := rfl
+
+theorem hps_tables_valid (dom : Dom) (g : RG.Graph) (counting : RG.Region → ℝ) (pots : CliqueVec ℝ)
+    (T : ℝ) (iters : Nat) (rho conv : ℝ) (msgs : RG.Msgs ℝ) (hT : 0 < T) (p : Clique × Factor ℝ)
+    (hp : p ∈ (RG.hps dom g counting pots T iters rho conv msgs).1)
+    (hsz : p.2.vals.data.size ≠ 0) : ValidTable T p.2 :=
+  valid_of_normalised T hT p.2 (hps_tables_normalised dom g counting pots T iters rho conv msgs p hp) hsz
+
+/-! ### loopy belief propagation on the factor graph -/
+
+noncomputable def lbpBelief (dom : Dom) (cliques : List Clique) (pots : CliqueVec ℝ) (iters : Nat)
+    (s : FG.State ℝ) (cl : Clique) : Factor ℝ :=
+  RG.addSum (pots.get cl)
+    (RG.pySum (cl.map (fun n => FG.getN (RG.iterate (FG.lbpSweep dom cliques pots) iters s) n cl)))
+
+theorem lbp_eq_fill (dom : Dom) (cliques : List Clique) (pots : CliqueVec ℝ) (T : ℝ) (iters : Nat)
+    (s : FG.State ℝ) :
+    (FG.lbp dom cliques pots T iters s).1 =
+      fill (fun cl => RG.normalise T (lbpBelief dom cliques pots iters s cl)) cliques [] := rfl
 
 theorem lbp_tables_normalised (dom : Dom) (cliques : List Clique) (pots : CliqueVec ℝ) (T : ℝ)
     (iters : Nat) (s : FG.State ℝ) (p : Clique × Factor ℝ) (hp : p ∈ (FG.lbp dom cliques pots T iters s).1) :
     ∃ b : Factor ℝ, p.2 = RG.normalise T b := by
-  sorry
+  rw [lbp_eq_fill] at hp
+  rcases mem_fill _ _ _ p hp with h | h
+  · simp at h
+  · exact ⟨_, h.2⟩
 
-/-- the cliques share no attribute -/
-def Disjoint (cliques : List Clique) : Prop :=
-  cliques.Pairwise (fun a b => ∀ x ∈ a, x ∉ b)
+/-- `self.cliques` is a list and may repeat a clique; the dictionary has each key once -/
+theorem lbp_keys' (dom : Dom) (cliques : List Clique) (pots : CliqueVec ℝ) (T : ℝ) (iters : Nat)
+    (s : FG.State ℝ) :
+    (FG.lbp dom cliques pots T iters s).1.map Prod.fst = RG.dedup cliques := by
+  rw [lbp_eq_fill]; exact keys_fill_nil _ _
+
+theorem lbp_keys (dom : Dom) (cliques : List Clique) (pots : CliqueVec ℝ) (T : ℝ) (iters : Nat)
+    (s : FG.State ℝ) (hnd : cliques.Nodup) :
+    (FG.lbp dom cliques pots T iters s).1.map Prod.fst = cliques := by
+  rw [lbp_keys', dedup_of_nodup _ hnd]
+
+theorem lbp_get (dom : Dom) (cliques : List Clique) (pots : CliqueVec ℝ) (T : ℝ) (iters : Nat)
+    (s : FG.State ℝ) (c : Clique) (hc : c ∈ cliques) :
+    (FG.lbp dom cliques pots T iters s).1.get c = RG.normalise T (lbpBelief dom cliques pots iters s c) := by
+  rw [lbp_eq_fill]; exact get_fill _ _ c hc
+
+theorem lbp_tables_valid (dom : Dom) (cliques : List Clique) (pots : CliqueVec ℝ) (T : ℝ)
+    (iters : Nat) (s : FG.State ℝ) (hT : 0 < T) (p : Clique × Factor ℝ)
+    (hp : p ∈ (FG.lbp dom cliques pots T iters s).1) (hsz : p.2.vals.data.size ≠ 0) : ValidTable T p.2 :=
+  valid_of_normalised T hT p.2 (lbp_tables_normalised dom cliques pots T iters s p hp) hsz
+
+/-! ## validity from checkable hypotheses: no attribute of extent 0, non-empty potentials
+
+`PosDom d` says that no attribute of `d` has extent 0 (`OraclePos.lean`).  It is preserved by every
+factor operation of the sweeps, so the belief tables have `size (dom.shape) ≠ 0` cells. -/
+
+theorem gbpBelief_size (dom : Dom) (g : RG.Graph) (pots : CliqueVec ℝ) (iters : Nat) (msgs : RG.Msgs ℝ)
+    (hpot : ∀ e ∈ g.messageOrder, PosDom (RG.potOf dom g pots e.1).dom)
+    (hm : PosMsgs msgs) (r : RG.Region)
+    (hr : PosDom (pots.get r).dom ∧ (pots.get r).vals.data.size ≠ 0) :
+    (gbpBelief dom g pots iters msgs r).vals.data.size ≠ 0 := by
+  unfold gbpBelief
+  apply addSum_size_ne_zero _ _ hr.1 hr.2
+  apply posSum_pySum
+  intro f hf
+  obtain ⟨e', _, rfl⟩ := List.mem_map.mp hf
+  apply PosMsgs.get
+  exact iterate_inv PosMsgs _ (fun m hm' => gbpSweep_pos g _ m hpot hm') iters msgs hm
+
+/-- **generalised propagation returns valid tables**: if no domain involved has an attribute of
+extent 0 and the potentials of the model cliques are non-empty, every returned table has strictly
+positive entries summing to `T` -/
+theorem gbp_tables_valid_pos (dom : Dom) (g : RG.Graph) (pots : CliqueVec ℝ) (T : ℝ) (iters : Nat)
+    (msgs : RG.Msgs ℝ) (hT : 0 < T)
+    (hpot : ∀ e ∈ g.messageOrder, PosDom (RG.potOf dom g pots e.1).dom)
+    (hcl : ∀ r ∈ g.cliques, PosDom (pots.get r).dom ∧ (pots.get r).vals.data.size ≠ 0)
+    (hm : PosMsgs msgs)
+    (p : Clique × Factor ℝ) (hp : p ∈ (RG.gbp dom g pots T iters msgs).1) : ValidTable T p.2 := by
+  rw [gbp_eq_fill] at hp
+  rcases mem_fill _ _ _ p hp with h | h
+  · simp at h
+  · rw [h.2]
+    exact normalise_valid' T _ hT (gbpBelief_size dom g pots iters msgs hpot hm p.1 (hcl p.1 h.1))
+
+/-- the same from the initial messages, with hypotheses on the inputs only: every size in `dom` is
+non-zero, the regions on the message schedule use attributes of `dom`, the clique potentials are
+non-empty tables over domains without extent 0 -/
+theorem gbp_tables_valid_init (dom : Dom) (g : RG.Graph) (pots : CliqueVec ℝ) (T : ℝ) (iters : Nat)
+    (hT : 0 < T) (hdom : PosDom dom)
+    (hord : ∀ e ∈ g.messageOrder, (∀ a ∈ e.1, a ∈ dom.attrs) ∧ (∀ a ∈ e.2, a ∈ dom.attrs))
+    (hcl : ∀ r ∈ g.cliques, PosDom (pots.get r).dom ∧ (pots.get r).vals.data.size ≠ 0)
+    (p : Clique × Factor ℝ)
+    (hp : p ∈ (RG.gbp dom g pots T iters (RG.initMessages dom g.messageOrder)).1) : ValidTable T p.2 := by
+  apply gbp_tables_valid_pos dom g pots T iters _ hT _ hcl _ p hp
+  · intro e he
+    exact (potOf_pos dom g pots e.1 hdom (hord e he).1
+      (fun h => hcl e.1 (List.contains_iff_mem.mp h))).1
+  · exact initMessages_pos dom _ hdom (fun e he => (hord e he).2)
+
+/-- loop invariant with a message invariant `Q` -/
+theorem hpsLoop_inv (g : RG.Graph) (pot : RG.Region → Factor ℝ) (c0 : RG.Region → ℝ) (T rho conv : ℝ)
+    (P : CliqueVec ℝ → Prop) (Q : RG.Msgs ℝ → Prop)
+    (hs : ∀ msgs, Q msgs → Q (RG.hpsSweep g pot c0 T rho msgs).1 ∧ P (RG.hpsSweep g pot c0 T rho msgs).2) :
+    ∀ (n done : Nat) (msgs : RG.Msgs ℝ) (mu : CliqueVec ℝ), Q msgs → P mu →
+      P (RG.hpsLoop g pot c0 T rho conv n done msgs mu).1 := by
+  intro n
+  induction n with
+  | zero => intro done msgs mu _ hmu; exact hmu
+  | succ n ih =>
+    intro done msgs mu hq _
+    have h := hs msgs hq
+    rw [RG.hpsLoop]
+    generalize RG.hpsSweep g pot c0 T rho msgs = q at h ⊢
+    obtain ⟨m, u⟩ := q
+    simp only
+    split
+    · exact h.2
+    · exact ih _ _ _ h.1 h.2
+
+/-- **the convex oracle returns valid tables** under the same kind of hypotheses -/
+theorem hps_tables_valid_pos (dom : Dom) (g : RG.Graph) (counting : RG.Region → ℝ) (pots : CliqueVec ℝ)
+    (T : ℝ) (iters : Nat) (rho conv : ℝ) (msgs : RG.Msgs ℝ) (hT : 0 < T)
+    (hpot : ∀ r ∈ g.regions, PosDom (RG.potOf dom g pots r).dom ∧
+      ∀ p ∈ RG.look g.parents r, PosDom (RG.potOf dom g pots p).dom)
+    (hsz : ∀ r ∈ g.regions, (RG.potOf dom g pots r).vals.data.size ≠ 0)
+    (hm : PosMsgs msgs)
+    (p : Clique × Factor ℝ) (hp : p ∈ (RG.hps dom g counting pots T iters rho conv msgs).1) :
+    ValidTable T p.2 := by
+  have key := hpsLoop_inv g (RG.potOf dom g pots) counting T rho conv
+    (fun mu => ∀ p ∈ mu, ValidTable T p.2) PosMsgs (by
+      intro msgs hm'
+      have h1 := hpsSweep_pos g (RG.potOf dom g pots) counting T rho msgs hpot hm'
+      refine ⟨h1, ?_⟩
+      intro p hp
+      rw [hpsSweep_snd_eq] at hp
+      rcases mem_fill _ _ _ p hp with h | h
+      · simp at h
+      · rw [h.2]
+        exact normalise_valid' T _ hT
+          (hpsBelief_size g _ counting _ p.1 (hpot p.1 h.1).1 (hsz p.1 h.1) h1))
+    iters 0 msgs [] hm (by intro p hp; simp at hp)
+  exact key p hp
+
+/-- **loopy propagation returns valid tables** -/
+theorem lbp_tables_valid_pos (dom : Dom) (cliques : List Clique) (pots : CliqueVec ℝ) (T : ℝ)
+    (iters : Nat) (s : FG.State ℝ) (hT : 0 < T)
+    (hcl : ∀ cl ∈ cliques, PosDom (pots.get cl).dom ∧ (pots.get cl).vals.data.size ≠ 0)
+    (hs : PosState s)
+    (p : Clique × Factor ℝ) (hp : p ∈ (FG.lbp dom cliques pots T iters s).1) : ValidTable T p.2 := by
+  rw [lbp_eq_fill] at hp
+  rcases mem_fill _ _ _ p hp with h | h
+  · simp at h
+  · rw [h.2]
+    apply normalise_valid' T _ hT
+    unfold lbpBelief
+    apply addSum_size_ne_zero _ _ (hcl p.1 h.1).1 (hcl p.1 h.1).2
+    apply posSum_pySum
+    intro f hf
+    obtain ⟨e', _, rfl⟩ := List.mem_map.mp hf
+    apply PosState.getN
+    exact iterate_inv PosState _ (fun m hm' => lbpSweep_pos dom cliques pots m (fun cl h => (hcl cl h).1) hm')
+      iters s hs
+
+theorem lbp_tables_valid_init (dom : Dom) (cliques : List Clique) (pots : CliqueVec ℝ) (T : ℝ)
+    (iters : Nat) (hT : 0 < T) (hdom : PosDom dom)
+    (hsub : ∀ cl ∈ cliques, ∀ v ∈ cl, v ∈ dom.attrs)
+    (hcl : ∀ cl ∈ cliques, PosDom (pots.get cl).dom ∧ (pots.get cl).vals.data.size ≠ 0)
+    (p : Clique × Factor ℝ)
+    (hp : p ∈ (FG.lbp dom cliques pots T iters (FG.initMessages dom cliques)).1) : ValidTable T p.2 :=
+  lbp_tables_valid_pos dom cliques pots T iters _ hT hcl (fg_initMessages_pos dom cliques hdom hsub) p hp
+
+/-! ## disjoint families: nothing is relaxed, the oracles are exact -/
+
+theorem addScalar_zero_datavector (x : Factor ℝ) : (x.addScalar Scalar.zero).datavector = x.datavector := by
+  show (x.vals.data.map (fun v => (0 : ℝ) + v)).toList = x.vals.data.toList
+  simp
+
+/-- on a graph without edges the marginals do not depend on sweeps or messages -/
+theorem gbp_flat (dom : Dom) (g : RG.Graph) (hg : Flat g) (pots : CliqueVec ℝ) (T : ℝ) (iters : Nat)
+    (msgs : RG.Msgs ℝ) :
+    (RG.gbp dom g pots T iters msgs).1 =
+      fill (fun r => RG.normalise T ((pots.get r).addScalar Scalar.zero)) g.cliques [] := by
+  rw [gbp_eq_fill]
+  congr 1
+  funext r
+  unfold gbpBelief
+  rw [hg.B r]
+  rfl
 
 /-- **when nothing is relaxed the oracles coincide**: for pairwise disjoint cliques the region graph
 has no edges, and generalised propagation returns `normalise total (potential)` on every clique,
 for every sweep count and message state -/
+theorem gbp_disjoint_msgs (dom : Dom) (cliques : List Clique) (pots : CliqueVec ℝ) (T : ℝ) (iters : Nat)
+    (msgs : RG.Msgs ℝ)
+    (hd : Disjoint cliques) (hnd : cliques.Nodup) (hne : ∀ c ∈ cliques, c ≠ [])
+    (c : Clique) (hc : c ∈ cliques) :
+    ((RG.gbp dom (RG.build cliques false true) pots T iters msgs).1.get c).datavector
+      = (RG.normalise T (pots.get c)).datavector := by
+  obtain ⟨h1, hflat⟩ := build_disjoint cliques false true hd hnd hne
+  rw [gbp_flat dom _ hflat, get_fill]
+  · exact normalise_datavector_congr T _ _ (addScalar_zero_datavector _)
+  · rw [h1, buildOn_cliques, mem_sortByLen]; exact hc
+
 theorem gbp_disjoint (dom : Dom) (cliques : List Clique) (pots : CliqueVec ℝ) (T : ℝ) (iters : Nat)
     (hd : Disjoint cliques) (hnd : cliques.Nodup) (hne : ∀ c ∈ cliques, c ≠ [])
     (c : Clique) (hc : c ∈ cliques) :
     let g := RG.build cliques false true
     ((RG.gbp dom g pots T iters (RG.initMessages dom g.messageOrder)).1.get c).datavector
       = (RG.normalise T (pots.get c)).datavector := by
-  sorry
+  intro g
+  exact gbp_disjoint_msgs dom cliques pots T iters _ hd hnd hne c hc
+
+/-- … and that table is a valid table of mass `T` when the potential is non-empty -/
+theorem gbp_disjoint_valid (dom : Dom) (cliques : List Clique) (pots : CliqueVec ℝ) (T : ℝ) (iters : Nat)
+    (msgs : RG.Msgs ℝ) (hT : 0 < T)
+    (hd : Disjoint cliques) (hnd : cliques.Nodup) (hne : ∀ c ∈ cliques, c ≠ [])
+    (c : Clique) (hc : c ∈ cliques) (hsz : (pots.get c).vals.data.size ≠ 0) :
+    ValidTable T ((RG.gbp dom (RG.build cliques false true) pots T iters msgs).1.get c) := by
+  obtain ⟨h1, hflat⟩ := build_disjoint cliques false true hd hnd hne
+  rw [gbp_flat dom _ hflat, get_fill]
+  · apply normalise_valid'  T _ hT
+    show (((pots.get c).vals.data.map (fun v => (0 : ℝ) + v))).size ≠ 0
+    simpa using hsz
+  · rw [h1, buildOn_cliques, mem_sortByLen]; exact hc
+
+theorem gbp_disjoint_keys (dom : Dom) (cliques : List Clique) (pots : CliqueVec ℝ) (T : ℝ) (iters : Nat)
+    (msgs : RG.Msgs ℝ) (hd : Disjoint cliques) (hnd : cliques.Nodup) (hne : ∀ c ∈ cliques, c ≠ []) :
+    (RG.gbp dom (RG.build cliques false true) pots T iters msgs).1.map Prod.fst = RG.sortByLen cliques := by
+  obtain ⟨h1, _⟩ := build_disjoint cliques false true hd hnd hne
+  rw [gbp_keys, h1, buildOn_cliques]
+  rw [h1, buildOn_cliques]
+  exact sortByLen_nodup _ hnd
+
+/-! ### the convex oracle -/
+
+/-- the belief of the convex oracle on a graph without edges -/
+noncomputable def hpsFlatBelief (pot : RG.Region → Factor ℝ) (c0 : RG.Region → ℝ) (r : RG.Region) : Factor ℝ :=
+  (RG.subSum (RG.addSum (pot r) RG.PySum.zero) RG.PySum.zero).divScalar (c0 r)
+
+theorem hpsSweep_flat (g : RG.Graph) (hg : Flat g) (pot : RG.Region → Factor ℝ) (c0 : RG.Region → ℝ)
+    (T rho : ℝ) (msgs : RG.Msgs ℝ) :
+    (RG.hpsSweep g pot c0 T rho msgs).2 = fill (fun r => RG.normalise T (hpsFlatBelief pot c0 r)) g.regions [] := by
+  unfold RG.hpsSweep
+  simp only [hg.children, hg.parents, List.map_nil, List.foldl_nil]
+  rfl
+
+theorem hps_flat (dom : Dom) (g : RG.Graph) (hg : Flat g) (counting : RG.Region → ℝ) (pots : CliqueVec ℝ)
+    (T : ℝ) (iters : Nat) (rho conv : ℝ) (msgs : RG.Msgs ℝ) (hi : 0 < iters) :
+    (RG.hps dom g counting pots T iters rho conv msgs).1 =
+      fill (fun r => RG.normalise T (hpsFlatBelief (RG.potOf dom g pots) counting r)) g.regions [] := by
+  obtain ⟨n, rfl⟩ : ∃ n, iters = n + 1 := ⟨iters - 1, by omega⟩
+  apply hpsLoop_mu_succ g (RG.potOf dom g pots) counting T rho conv
+    (fun mu => mu = fill (fun r => RG.normalise T (hpsFlatBelief (RG.potOf dom g pots) counting r)) g.regions [])
+  intro msgs
+  exact hpsSweep_flat g hg _ _ T rho msgs
+
+theorem hpsFlatBelief_one_datavector (x : Factor ℝ) :
+    (((x.addScalar Scalar.zero).subScalar Scalar.zero).divScalar (1 : ℝ)).datavector = x.datavector := by
+  show (((x.vals.data.map (fun v => (0 : ℝ) + v)).map (fun v => v + -(0 : ℝ))).map
+    (fun v => v / (1 : ℝ))).toList = x.vals.data.toList
+  simp
+
+theorem hps_disjoint_msgs (dom : Dom) (cliques : List Clique) (pots : CliqueVec ℝ) (T : ℝ) (iters : Nat)
+    (rho conv : ℝ) (msgs : RG.Msgs ℝ) (hi : 0 < iters) (hd : Disjoint cliques) (hnd : cliques.Nodup)
+    (hne : ∀ c ∈ cliques, c ≠ []) (c : Clique) (hc : c ∈ cliques) :
+    ((RG.hps dom (RG.build cliques true true) (fun _ => 1) pots T iters rho conv msgs).1.get c).datavector
+      = (RG.normalise T (pots.get c)).datavector := by
+  obtain ⟨h1, hflat⟩ := build_disjoint cliques true true hd hnd hne
+  rw [hps_flat dom _ hflat _ _ _ _ _ _ _ hi, get_fill]
+  · apply normalise_datavector_congr
+    have hpot : RG.potOf dom (RG.build cliques true true) pots c = pots.get c := by
+      unfold RG.potOf
+      rw [if_pos]
+      rw [h1, buildOn_cliques]
+      exact List.contains_iff_mem.mpr ((mem_sortByLen _ _).mpr hc)
+    unfold hpsFlatBelief
+    rw [hpot]
+    exact hpsFlatBelief_one_datavector _
+  · rw [h1, buildOn_regions]; exact hc
 
 theorem hps_disjoint (dom : Dom) (cliques : List Clique) (pots : CliqueVec ℝ) (T : ℝ) (iters : Nat)
     (rho conv : ℝ) (hi : 0 < iters) (hd : Disjoint cliques) (hnd : cliques.Nodup) (hne : ∀ c ∈ cliques, c ≠ [])
@@ -66,6 +445,181 @@ theorem hps_disjoint (dom : Dom) (cliques : List Clique) (pots : CliqueVec ℝ) 
     let g := RG.build cliques true true
     ((RG.hps dom g (fun _ => 1) pots T iters rho conv (RG.initMessages dom g.messageOrder)).1.get c).datavector
       = (RG.normalise T (pots.get c)).datavector := by
-  sorry
+  intro g
+  exact hps_disjoint_msgs dom cliques pots T iters rho conv _ hi hd hnd hne c hc
+
+theorem hps_disjoint_keys (dom : Dom) (cliques : List Clique) (pots : CliqueVec ℝ) (T : ℝ) (iters : Nat)
+    (rho conv : ℝ) (msgs : RG.Msgs ℝ) (counting : RG.Region → ℝ) (hi : 0 < iters) (hd : Disjoint cliques)
+    (hnd : cliques.Nodup) (hne : ∀ c ∈ cliques, c ≠ []) :
+    (RG.hps dom (RG.build cliques true true) counting pots T iters rho conv msgs).1.map Prod.fst = cliques := by
+  obtain ⟨h1, _⟩ := build_disjoint cliques true true hd hnd hne
+  rw [hps_keys _ _ _ _ _ _ _ _ _ hi, h1, buildOn_regions]
+  rw [h1, buildOn_regions]; exact hnd
+
+/-! ### loopy belief propagation on a disjoint family
+
+Here the potentials must be well-formed tables over their cliques (as the Python constructs them):
+the belief is `potential + Σ_v (zero table over [v])`, and adding a table over `[v]` to a table whose
+domain does not contain `v` enlarges the domain (`lbp_disjoint_needs_pots` below). -/
+
+theorem lbp_disjoint (dom : Dom) (cliques : List Clique) (pots : CliqueVec ℝ) (T : ℝ) (iters : Nat)
+    (hd : Disjoint cliques) (hnd : cliques.Nodup) (htup : ∀ cl ∈ cliques, cl.Nodup)
+    (hpot : ∀ cl ∈ cliques, (pots.get cl).WF ∧ (pots.get cl).dom = dom.project cl)
+    (c : Clique) (hc : c ∈ cliques) :
+    ((FG.lbp dom cliques pots T iters (FG.initMessages dom cliques)).1.get c).datavector
+      = (RG.normalise T (pots.get c)).datavector := by
+  rw [lbp_get _ _ _ _ _ _ c hc]
+  apply normalise_datavector_congr
+  unfold lbpBelief
+  exact belief_datavector dom cliques pots ⟨hd, hnd, htup, hpot⟩ _
+    (lbp_state_inv dom cliques pots ⟨hd, hnd, htup, hpot⟩ iters) c hc
+
+/-- all three oracles agree on a disjoint family -/
+theorem oracles_agree_disjoint (dom : Dom) (cliques : List Clique) (pots : CliqueVec ℝ) (T : ℝ)
+    (i1 i2 i3 : Nat) (rho conv : ℝ) (hi : 0 < i2)
+    (hd : Disjoint cliques) (hnd : cliques.Nodup) (hne : ∀ c ∈ cliques, c ≠ [])
+    (htup : ∀ cl ∈ cliques, cl.Nodup)
+    (hpot : ∀ cl ∈ cliques, (pots.get cl).WF ∧ (pots.get cl).dom = dom.project cl)
+    (c : Clique) (hc : c ∈ cliques) :
+    let g1 := RG.build cliques false true
+    let g2 := RG.build cliques true true
+    ((RG.gbp dom g1 pots T i1 (RG.initMessages dom g1.messageOrder)).1.get c).datavector =
+      ((RG.hps dom g2 (fun _ => 1) pots T i2 rho conv (RG.initMessages dom g2.messageOrder)).1.get c).datavector ∧
+    ((RG.gbp dom g1 pots T i1 (RG.initMessages dom g1.messageOrder)).1.get c).datavector =
+      ((FG.lbp dom cliques pots T i3 (FG.initMessages dom cliques)).1.get c).datavector := by
+  intro g1 g2
+  rw [gbp_disjoint dom cliques pots T i1 hd hnd hne c hc,
+    hps_disjoint dom cliques pots T i2 rho conv hi hd hnd hne c hc,
+    lbp_disjoint dom cliques pots T i3 hd hnd htup hpot c hc]
+  exact ⟨rfl, rfl⟩
+
+/-- `hnd` is implied by the other two hypotheses of the `*_disjoint` theorems -/
+theorem nodup_of_disjoint (cliques : List Clique) (hd : Disjoint cliques) (hne : ∀ c ∈ cliques, c ≠ []) :
+    cliques.Nodup := by
+  unfold Disjoint at hd
+  refine List.Pairwise.imp_of_mem ?_ hd
+  intro a b ha _ hab heq
+  subst heq
+  cases a with
+  | nil => exact hne [] ha rfl
+  | cons x xs => exact hab x (by simp) (by simp)
+
+/-- without the hypothesis on the potentials `lbp_disjoint` fails: an absent potential is the scalar
+table `zeros []`, and the belief `zeros [] + (message over [a])` has 2 cells instead of 1 -/
+theorem lbp_disjoint_needs_pots :
+    ¬ (∀ (dom : Dom) (cliques : List Clique) (pots : CliqueVec ℝ) (T : ℝ) (iters : Nat),
+        Disjoint cliques → cliques.Nodup → (∀ cl ∈ cliques, cl.Nodup) → ∀ c ∈ cliques,
+        ((FG.lbp dom cliques pots T iters (FG.initMessages dom cliques)).1.get c).datavector
+          = (RG.normalise T (pots.get c)).datavector) := by
+  intro h
+  have h1 := h [("a", 2)] [["a"]] [] 1 0 (by simp [Disjoint]) (by simp) (by simp) ["a"] (by simp)
+  rw [lbp_get _ _ _ _ _ _ ["a"] (by simp)] at h1
+  have hl := congrArg List.length h1
+  simp only [Factor.datavector, Array.length_toList, normalise_size] at hl
+  have hN := (initMessages_inv [("a", 2)] [["a"]] ["a"] (by simp) "a" (by simp)).1.2.1
+  have hbel : (lbpBelief [("a", 2)] [["a"]] ([] : CliqueVec ℝ) 0 (FG.initMessages [("a", 2)] [["a"]]) ["a"]).vals.data.size = 2 := by
+    show (Factor.binop Scalar.add (Factor.zeros [])
+      ((FG.getN (FG.initMessages [("a", 2)] [["a"]]) "a" ["a"]).addScalar Scalar.zero)).vals.data.size = 2
+    rw [binop_size]
+    show size (Dom.shape (Dom.merge ([] : Dom) (FG.getN (FG.initMessages [("a", 2)] [["a"]] : FG.State ℝ) "a" ["a"]).dom)) = 2
+    rw [hN]
+    decide
+  rw [hbel] at hl
+  have hz : (CliqueVec.get ([] : CliqueVec ℝ) ["a"]).vals.data.size = 1 := by
+    show (Factor.zeros ([] : Dom) : Factor ℝ).vals.data.size = 1
+    rw [zeros_size]; rfl
+  rw [hz] at hl
+  exact absurd hl (by decide)
+
+/-! ## non-vacuity: concrete instances of the hypotheses -/
+section Examples
+
+def exCliques : List Clique := [["a", "b"], ["c"]]
+def exDom : Dom := [("a", 2), ("b", 3), ("c", 2)]
+noncomputable def exPots : CliqueVec ℝ :=
+  [(["a", "b"], Factor.zeros (exDom.project ["a", "b"])), (["c"], Factor.zeros (exDom.project ["c"]))]
+noncomputable def exB : Factor ℝ := ⟨[("a", 2)], ⟨[2], #[0, 1]⟩⟩
+
+theorem exCliques_ok : Disjoint exCliques ∧ exCliques.Nodup ∧ ∀ c ∈ exCliques, c ≠ [] := by
+  refine ⟨?_, ?_, ?_⟩ <;> simp [exCliques, Disjoint]
+
+theorem ex_sorted : RG.sortByLen exCliques = [["c"], ["a", "b"]] := by decide
+
+/-- `normalise_valid` -/
+example : ValidTable 5 (RG.normalise 5 exB) :=
+  (normalise_valid 5 exB (by norm_num) (by simp [exB])).1
+
+/-- `normalise_entry` -/
+example : (RG.normalise 5 exB).vals.data[1]? = some (5 * Real.exp 1 / (Real.exp 0 + (Real.exp 1 + 0))) := by
+  have := normalise_entry 5 exB (by norm_num) 1 (by simp [exB])
+  simpa [exB] using this
+
+/-- `gbp_tables_normalised` / `gbp_keys`: the returned dictionary is not empty -/
+example (dom : Dom) (pots : CliqueVec ℝ) (T : ℝ) (iters : Nat) (msgs : RG.Msgs ℝ) :
+    (RG.gbp dom (RG.build exCliques false true) pots T iters msgs).1.map Prod.fst = [["c"], ["a", "b"]] := by
+  rw [gbp_disjoint_keys dom exCliques pots T iters msgs exCliques_ok.1 exCliques_ok.2.1 exCliques_ok.2.2]
+  exact ex_sorted
+
+/-- `hps_tables_normalised` / `hps_keys` -/
+example (dom : Dom) (pots : CliqueVec ℝ) (T rho conv : ℝ) (msgs : RG.Msgs ℝ) (c0 : RG.Region → ℝ) :
+    (RG.hps dom (RG.build exCliques true true) c0 pots T 3 rho conv msgs).1.map Prod.fst = exCliques :=
+  hps_disjoint_keys dom exCliques pots T 3 rho conv msgs c0 (by decide) exCliques_ok.1 exCliques_ok.2.1
+    exCliques_ok.2.2
+
+/-- `lbp_tables_normalised` / `lbp_keys` -/
+example (dom : Dom) (pots : CliqueVec ℝ) (T : ℝ) (iters : Nat) (s : FG.State ℝ) :
+    (FG.lbp dom exCliques pots T iters s).1.map Prod.fst = exCliques :=
+  lbp_keys dom exCliques pots T iters s exCliques_ok.2.1
+
+/-- `gbp_disjoint`, `hps_disjoint` -/
+example (dom : Dom) (pots : CliqueVec ℝ) (T : ℝ) (iters : Nat) :=
+  gbp_disjoint dom exCliques pots T iters exCliques_ok.1 exCliques_ok.2.1 exCliques_ok.2.2 ["c"] (by simp [exCliques])
+
+example (dom : Dom) (pots : CliqueVec ℝ) (T rho conv : ℝ) :=
+  hps_disjoint dom exCliques pots T 2 rho conv (by decide) exCliques_ok.1 exCliques_ok.2.1 exCliques_ok.2.2
+    ["a", "b"] (by simp [exCliques])
+
+theorem exPots_ok : ∀ r ∈ exCliques, PosDom (exPots.get r).dom ∧ (exPots.get r).vals.data.size ≠ 0 := by
+  intro r hr
+  simp only [exCliques, List.mem_cons, List.mem_nil_iff, or_false] at hr
+  rcases hr with rfl | rfl
+  · refine ⟨?_, ?_⟩
+    · intro p hp
+      simp [exPots, CliqueVec.get, List.lookup, Factor.zeros, Factor.mk', exDom, Dom.project, Dom.cfg] at hp
+      rcases hp with rfl | rfl <;> simp
+    · simp [exPots, CliqueVec.get, List.lookup, Factor.zeros, Factor.mk', exDom, Dom.project, Dom.cfg,
+        NdArr.reshape, NdArr.const, PGM.size, Dom.shape]
+  · refine ⟨?_, ?_⟩
+    · intro p hp
+      simp [exPots, CliqueVec.get, List.lookup, Factor.zeros, Factor.mk', exDom, Dom.project, Dom.cfg] at hp
+      subst hp; simp
+    · simp [exPots, CliqueVec.get, List.lookup, Factor.zeros, Factor.mk', exDom, Dom.project, Dom.cfg,
+        NdArr.reshape, NdArr.const, PGM.size, Dom.shape]
+
+theorem exDom_pos : PosDom exDom := by
+  intro p hp
+  simp only [exDom, List.mem_cons, List.mem_nil_iff, or_false] at hp
+  rcases hp with rfl | rfl | rfl <;> simp
+
+/-- `lbp_tables_valid_init`: every table returned for the example model is a valid table -/
+example (iters : Nat) (p : Clique × Factor ℝ)
+    (hp : p ∈ (FG.lbp exDom exCliques exPots 10 iters (FG.initMessages exDom exCliques)).1) :
+    ValidTable 10 p.2 :=
+  lbp_tables_valid_init exDom exCliques exPots 10 iters (by norm_num) exDom_pos
+    (by simp [exCliques, exDom, Dom.attrs]) exPots_ok p hp
+
+/-- `gbp_tables_valid_init` on the graph of the example family -/
+example (iters : Nat) (p : Clique × Factor ℝ)
+    (hp : p ∈ (RG.gbp exDom (RG.build exCliques false true) exPots 10 iters
+      (RG.initMessages exDom (RG.build exCliques false true).messageOrder)).1) :
+    ValidTable 10 p.2 := by
+  obtain ⟨h1, hflat⟩ := build_disjoint exCliques false true exCliques_ok.1 exCliques_ok.2.1 exCliques_ok.2.2
+  apply gbp_tables_valid_init exDom _ exPots 10 iters (by norm_num) exDom_pos _ _ p hp
+  · intro e he; rw [hflat.order] at he; simp at he
+  · intro r hr
+    rw [h1, buildOn_cliques, mem_sortByLen] at hr
+    exact exPots_ok r hr
+
+end Examples
 
 end PGM.Oracle
